@@ -11,6 +11,9 @@ From Coq Require Import List NArith Bool.
 Import ListNotations.
 Open Scope N_scope.
 
+(* substream ids are usize: the shared counter wraps modulo 2^64 (fetch_add) *)
+Definition ID_MOD : N := 18446744073709551616.
+
 Definition key := (N * N)%type.                      (* (peer, connection id) *)
 Definition key_eqb (a b : key) : bool := (fst a =? fst b) && (snd a =? snd b).
 
@@ -105,7 +108,9 @@ Inductive ev :=
 | EOtherUp (c : N)                     (* another protocol upgrades / acquires a strong sender of c *)
 | EOtherDown (c : N)                   (* ... and releases one *)
 | EBump (n : N)                        (* other TransportServices draw n ids from the shared counter *)
-| EShutSub (c : N).                    (* the protocol shuts down the write half of a substream of c it keeps holding *)
+| EShutSub (c : N)
+                   (* the protocol shuts down the write half of a substream of c it keeps holding *)
+| EOpenFull (p : N).                   (* open_substream(p) while the primary's command channel is full *)
 
 Inductive out :=
 | OEst (p : N)                         (* TransportEvent::ConnectionEstablished *)
@@ -113,7 +118,7 @@ Inductive out :=
 | OSub (p : N) (dir : option N)        (* TransportEvent::SubstreamOpened, Some id = Outbound(id) *)
 | OFail (id : N) (gp : option N)       (* SubstreamOpenFailure; gp is GHOST: peer the open was for *)
 | ODial (p : N)                        (* TransportEvent::DialFailure *)
-| ORet (r : N) (id : N)                (* open_substream returned: r=0 Ok(id), 1 PeerDoesNotExist, 2 ConnectionClosed *)
+| ORet (r : N) (id : N)                (* open_substream returned: r=0 Ok(id), 1 PeerDoesNotExist, 2 ConnectionClosed, 3 ChannelClogged *)
 | OCmd (c id : N)                      (* OpenSubstream{id} appeared on the command channel of connection c *)
 | ODown (p c : N)                      (* the handle of (p,c) went Active -> Inactive (keep-alive timeout) *)
 | OPanic                               (* debug_assert!(false): closed event for an unknown peer *)
@@ -271,12 +276,31 @@ Definition on_open (s : st) (p : N) : st * list out :=
       let c := h_id (c_prim cx) in
       if h_act (c_prim cx) || (0 <? strong s c) then           (* try_get_permit *)
         let id := s_next s in
-        let s := with_next s (id + 1) in
+        let s := with_next s ((id + 1) mod ID_MOD) in
         let s := if s_ka s then
                    let s := activity s (p, c) in
                    with_ctxs s (set_ctx (mkCtx p (mkH c true) (c_sec cx)) (s_ctxs s))   (* try_upgrade *)
                  else s in
         (with_pend s (s_pend s ++ [(id, (p, c))]), [ORet 0 id; OCmd c id])
+      else (s, [ORet 2 0])
+  end.
+
+(* open_substream when try_send finds the command channel full: the permit was taken, the id
+   was drawn, the activity was recorded and the handle upgraded — then ChannelClogged; nothing is
+   in flight (the permit is dropped with the rejected command) *)
+Definition on_open_full (s : st) (p : N) : st * list out :=
+  match find_ctx p (s_ctxs s) with
+  | None => (s, [ORet 1 0])
+  | Some cx =>
+      let c := h_id (c_prim cx) in
+      if h_act (c_prim cx) || (0 <? strong s c) then
+        let id := s_next s in
+        let s := with_next s ((id + 1) mod ID_MOD) in
+        let s := if s_ka s then
+                   let s := activity s (p, c) in
+                   with_ctxs s (set_ctx (mkCtx p (mkH c true) (c_sec cx)) (s_ctxs s))
+                 else s in
+        (s, [ORet 3 0])
       else (s, [ORet 2 0])
   end.
 
@@ -317,13 +341,14 @@ Definition handle_ev (s : st) (e : ev) : st * list out :=
                   else (s, [OSkip])
       | None => (s, [OSkip])
       end
-  | EBump n => (with_next s (s_next s + n), [])
+  | EBump n => (with_next s ((s_next s + n) mod ID_MOD), [])
   | EShutSub c =>
       (* half-closing is not dropping: the substream keeps its lifetime permit *)
       match find_ch c (s_chans s) with
       | Some x => if 0 <? ch_held x then (s, []) else (s, [OSkip])
       | None => (s, [OSkip])
       end
+  | EOpenFull p => on_open_full s p
   end.
 
 (* SPECIFICATION of "keep-alive activity" (independent of the handlers above): which (peer,
@@ -338,7 +363,7 @@ Definition ka_activity_of (s : st) (e : ev) : option key :=
       end
   | ESubIn p c m => if (0 <? strong s c) && m && s_ka s then Some (p, c) else None
   | ESubOut id m => if m && s_ka s then pfind id (s_pend s) else None
-  | EOpen p =>
+  | EOpen p | EOpenFull p =>
       match find_ctx p (s_ctxs s) with
       | Some cx =>
           if (h_act (c_prim cx) || (0 <? strong s (h_id (c_prim cx)))) && s_ka s
@@ -347,6 +372,10 @@ Definition ka_activity_of (s : st) (e : ev) : option key :=
       end
   | _ => None
   end.
+
+(* how many ids an input can draw from the shared counter at most *)
+Definition draw_of (e : ev) : N :=
+  match e with EOpen _ | EOpenFull _ => 1 | EBump n => n | _ => 0 end.
 
 Definition step (s : st) (dt : N) (e : ev) : st * list out :=
   let s := with_now s (s_now s + dt) in
